@@ -1,0 +1,27 @@
+//go:build verif
+// +build verif
+
+// Package verifhook provides named yield points for the verification harness.
+package verifhook
+
+import "sync/atomic"
+
+// On reports whether hooks are compiled in.
+const On = true
+
+var gate atomic.Value // func(point string, args ...interface{})
+
+// SetGate installs (or, with nil, removes) the controller called at every yield point.
+func SetGate(f func(point string, args ...interface{})) {
+	if f == nil {
+		f = func(string, ...interface{}) {}
+	}
+	gate.Store(f)
+}
+
+// Gate calls the installed controller, if any.
+func Gate(point string, args ...interface{}) {
+	if f, ok := gate.Load().(func(point string, args ...interface{})); ok {
+		f(point, args...)
+	}
+}
